@@ -25,12 +25,25 @@ package gonum
 // n < 0" and "returns 0 / does nothing if incX < 0"; which wins when both
 // hold is not documented and the routines differ, so that corner is excluded.
 
-//@ func Implementation.Dnrm2 Implementation.Snrm2 Implementation.Dasum Implementation.Sasum props: C01(frame) C07(safety)
+//@ func Implementation.Dnrm2 Implementation.Snrm2 Implementation.Sasum props: C01(frame) C07(safety)
 //@ requires !(n < 0 && incX < 0)
 //@ valid incX != 0 && n >= 0 && (incX < 0 || vec(x, n, incX))
 //@ panics iff !valid, before-writes
 //@ writes nothing
 //@ reads x[k*incX] for k in 0..n if incX > 0
+
+// Dasum: in exact arithmetic the result is the sum of |x[k*incX]| over the n addressed elements
+// (0 for a negative increment, as documented).
+//@ func Implementation.Dasum props: C01 C07(safety)
+//@ requires !(n < 0 && incX < 0)
+//@ valid incX != 0 && n >= 0 && (incX < 0 || vec(x, n, incX))
+//@ panics iff !valid, before-writes
+//@ writes nothing
+//@ reads x[k*incX] for k in 0..n if incX > 0
+//@ ensures [real] incX > 0 ==> result == f64.asum(x, n, incX)
+//@ ensures [real] incX < 0 ==> result == 0
+//@ loop 1: invariant [real] sum == f64.asum(x, it, 1)
+//@ loop 2: invariant [real] sum == f64.asum(x, i, incX)
 
 //@ func Implementation.Idamax Implementation.Isamax props: C01(frame) C07(safety)
 //@ requires !(n < 0 && incX < 0)
@@ -49,11 +62,78 @@ package gonum
 // (operands in disjoint slices, or two rows of one matrix: unit increments and non-overlapping cell ranges)
 //@ ensures disjoint(x, y) || (incX == 1 && incY == 1 && (x.off+n <= y.off || y.off+n <= x.off)) ==> forall(k, 0, n, same(x[start(n,incX)+k*incX], old(y[start(n,incY)+k*incY])) && same(y[start(n,incY)+k*incY], old(x[start(n,incX)+k*incX])))
 
-//@ func Implementation.Drot Implementation.Srot Implementation.Drotm Implementation.Srotm props: C01(frame) C07(safety)
+//@ func Implementation.Srot Implementation.Srotm props: C01(frame) C07(safety)
 //@ valid incX != 0 && incY != 0 && n >= 0 && vec(x, n, incX) && vec(y, n, incY)
 //@ panics iff !valid, before-writes
 //@ writes x[start(n,incX)+k*incX] for k in 0..n ; y[start(n,incY)+k*incY] for k in 0..n
 //@ reads nothing
+
+// Drot: the plane rotation, element by element and exactly as the reference computes it
+// (x' = c*x + s*y, y' = c*y - s*x, each from the entry values); x and y do not share storage.
+//@ func Implementation.Drot props: C01 C07(safety)
+//@ valid incX != 0 && incY != 0 && n >= 0 && vec(x, n, incX) && vec(y, n, incY)
+//@ panics iff !valid, before-writes
+//@ writes x[start(n,incX)+k*incX] for k in 0..n ; y[start(n,incY)+k*incY] for k in 0..n
+//@ reads nothing
+//@ let sx = start(n,incX)
+//@ let sy = start(n,incY)
+//@ ensures disjoint(x, y) ==> (forall(k, 0, n, same(x[sx+k*incX], c*old(x[sx+k*incX]) + s*old(y[sy+k*incY])) && same(y[sy+k*incY], c*old(y[sy+k*incY]) - s*old(x[sx+k*incX]))))
+//@ loop 1: invariant forall(k, 0, it, disjoint(old(x), old(y)) ==> same(x[sx+k*incX], c*old(x[sx+k*incX]) + s*old(y[sy+k*incY])))
+//@ invariant forall(k, 0, it, disjoint(old(x), old(y)) ==> same(y[sy+k*incY], c*old(y[sy+k*incY]) - s*old(x[sx+k*incX])))
+//@ invariant forall(k, it, n, disjoint(old(x), old(y)) ==> same(x[sx+k*incX], old(x[sx+k*incX])))
+//@ invariant forall(k, it, n, disjoint(old(x), old(y)) ==> same(y[sy+k*incY], old(y[sy+k*incY])))
+//@ loop 2: invariant ix == sx + i*incX
+//@ invariant iy == sy + i*incY
+//@ invariant forall(k, 0, i, disjoint(old(x), old(y)) ==> same(x[sx+k*incX], c*old(x[sx+k*incX]) + s*old(y[sy+k*incY])))
+//@ invariant forall(k, 0, i, disjoint(old(x), old(y)) ==> same(y[sy+k*incY], c*old(y[sy+k*incY]) - s*old(x[sx+k*incX])))
+//@ invariant forall(k, i, n, disjoint(old(x), old(y)) ==> same(x[sx+k*incX], old(x[sx+k*incX])))
+//@ invariant forall(k, i, n, disjoint(old(x), old(y)) ==> same(y[sy+k*incY], old(y[sy+k*incY])))
+
+// Drotm: the modified Givens transformation H selected by p.Flag, element by element and exactly in the
+// reference's order of operations: Rescaling (-1) uses all of H, OffDiagonal (0) has unit diagonal,
+// Diagonal (1) has h12 = 1, h21 = -1, Identity (-2) changes nothing. p.H is stored column-major
+// (h11, h21, h12, h22). x and y lie in distinct allocations.
+//@ func Implementation.Drotm props: C01 C07(safety)
+//@ valid incX != 0 && incY != 0 && n >= 0 && vec(x, n, incX) && vec(y, n, incY)
+//@ panics iff !valid, before-writes
+//@ writes x[start(n,incX)+k*incX] for k in 0..n ; y[start(n,incY)+k*incY] for k in 0..n
+//@ reads nothing
+//@ let sx = start(n,incX)
+//@ let sy = start(n,incY)
+//@ ensures x.rid != y.rid && p.Flag == blas.Rescaling ==> (forall(k, 0, n, same(x[sx+k*incX], old(x[sx+k*incX])*p.H[0] + old(y[sy+k*incY])*p.H[2]) && same(y[sy+k*incY], old(x[sx+k*incX])*p.H[1] + old(y[sy+k*incY])*p.H[3])))
+//@ ensures x.rid != y.rid && p.Flag == blas.OffDiagonal ==> (forall(k, 0, n, same(x[sx+k*incX], old(x[sx+k*incX]) + old(y[sy+k*incY])*p.H[2]) && same(y[sy+k*incY], old(x[sx+k*incX])*p.H[1] + old(y[sy+k*incY]))))
+//@ ensures x.rid != y.rid && p.Flag == blas.Diagonal ==> (forall(k, 0, n, same(x[sx+k*incX], old(x[sx+k*incX])*p.H[0] + old(y[sy+k*incY])) && same(y[sy+k*incY], -old(x[sx+k*incX]) + old(y[sy+k*incY])*p.H[3])))
+//@ ensures p.Flag == blas.Identity ==> (forall(k, 0, n, same(x[sx+k*incX], old(x[sx+k*incX])) && same(y[sy+k*incY], old(y[sy+k*incY]))))
+//@ loop 1: invariant forall(k, 0, it, x.rid != y.rid ==> same(x[sx+k*incX], old(x[sx+k*incX])*p.H[0] + old(y[sy+k*incY])*p.H[2]))
+//@ invariant forall(k, 0, it, x.rid != y.rid ==> same(y[sy+k*incY], old(x[sx+k*incX])*p.H[1] + old(y[sy+k*incY])*p.H[3]))
+//@ invariant forall(k, it, n, x.rid != y.rid ==> same(x[sx+k*incX], old(x[sx+k*incX])))
+//@ invariant forall(k, it, n, x.rid != y.rid ==> same(y[sy+k*incY], old(y[sy+k*incY])))
+//@ loop 2: invariant ix == sx + i*incX
+//@ invariant iy == sy + i*incY
+//@ invariant forall(k, 0, i, x.rid != y.rid ==> same(x[sx+k*incX], old(x[sx+k*incX])*p.H[0] + old(y[sy+k*incY])*p.H[2]))
+//@ invariant forall(k, 0, i, x.rid != y.rid ==> same(y[sy+k*incY], old(x[sx+k*incX])*p.H[1] + old(y[sy+k*incY])*p.H[3]))
+//@ invariant forall(k, i, n, x.rid != y.rid ==> same(x[sx+k*incX], old(x[sx+k*incX])))
+//@ invariant forall(k, i, n, x.rid != y.rid ==> same(y[sy+k*incY], old(y[sy+k*incY])))
+//@ loop 3: invariant forall(k, 0, it, x.rid != y.rid ==> same(x[sx+k*incX], old(x[sx+k*incX]) + old(y[sy+k*incY])*p.H[2]))
+//@ invariant forall(k, 0, it, x.rid != y.rid ==> same(y[sy+k*incY], old(x[sx+k*incX])*p.H[1] + old(y[sy+k*incY])))
+//@ invariant forall(k, it, n, x.rid != y.rid ==> same(x[sx+k*incX], old(x[sx+k*incX])))
+//@ invariant forall(k, it, n, x.rid != y.rid ==> same(y[sy+k*incY], old(y[sy+k*incY])))
+//@ loop 4: invariant ix == sx + i*incX
+//@ invariant iy == sy + i*incY
+//@ invariant forall(k, 0, i, x.rid != y.rid ==> same(x[sx+k*incX], old(x[sx+k*incX]) + old(y[sy+k*incY])*p.H[2]))
+//@ invariant forall(k, 0, i, x.rid != y.rid ==> same(y[sy+k*incY], old(x[sx+k*incX])*p.H[1] + old(y[sy+k*incY])))
+//@ invariant forall(k, i, n, x.rid != y.rid ==> same(x[sx+k*incX], old(x[sx+k*incX])))
+//@ invariant forall(k, i, n, x.rid != y.rid ==> same(y[sy+k*incY], old(y[sy+k*incY])))
+//@ loop 5: invariant forall(k, 0, it, x.rid != y.rid ==> same(x[sx+k*incX], old(x[sx+k*incX])*p.H[0] + old(y[sy+k*incY])))
+//@ invariant forall(k, 0, it, x.rid != y.rid ==> same(y[sy+k*incY], -old(x[sx+k*incX]) + old(y[sy+k*incY])*p.H[3]))
+//@ invariant forall(k, it, n, x.rid != y.rid ==> same(x[sx+k*incX], old(x[sx+k*incX])))
+//@ invariant forall(k, it, n, x.rid != y.rid ==> same(y[sy+k*incY], old(y[sy+k*incY])))
+//@ loop 6: invariant ix == sx + i*incX
+//@ invariant iy == sy + i*incY
+//@ invariant forall(k, 0, i, x.rid != y.rid ==> same(x[sx+k*incX], old(x[sx+k*incX])*p.H[0] + old(y[sy+k*incY])))
+//@ invariant forall(k, 0, i, x.rid != y.rid ==> same(y[sy+k*incY], -old(x[sx+k*incX]) + old(y[sy+k*incY])*p.H[3]))
+//@ invariant forall(k, i, n, x.rid != y.rid ==> same(x[sx+k*incX], old(x[sx+k*incX])))
+//@ invariant forall(k, i, n, x.rid != y.rid ==> same(y[sy+k*incY], old(y[sy+k*incY])))
 
 // Exact element-wise values (no summation is involved, so the BLAS definition
 // leaves no freedom): stated for operands that do not share storage.
@@ -110,12 +190,24 @@ package gonum
 //@ spec flagS(s int) bool = s == blas.Left || s == blas.Right
 //@ spec ge(a []float64, r int, c int, ld int) bool = len(a) >= ld*(r-1)+c
 
-//@ func Implementation.Dger Implementation.Sger props: C01(frame) C07(safety)
+//@ func Implementation.Sger props: C01(frame) C07(safety)
 //@ valid m >= 0 && n >= 0 && lda >= max(1, n) && incX != 0 && incY != 0 &&
 //@       (m == 0 || n == 0 || (vec(x, m, incX) && vec(y, n, incY) && ge(a, m, n, lda)))
 //@ panics iff !valid, before-writes
 //@ writes a[i*lda+j] for i in 0..m, j in 0..n
 //@ reads x[start(m,incX)+k*incX] for k in 0..m ; y[start(n,incY)+k*incY] for k in 0..n
+
+// Dger: A += alpha*x*yᵀ element by element, exactly (no summation); the product is associated as
+// (alpha*x[i])*y[j], as in the reference routine called for row-major storage. alpha == 0 leaves A
+// untouched (the reference's quick return). Operands in distinct allocations.
+//@ func Implementation.Dger props: C01 C07(safety)
+//@ valid m >= 0 && n >= 0 && lda >= max(1, n) && incX != 0 && incY != 0 &&
+//@       (m == 0 || n == 0 || (vec(x, m, incX) && vec(y, n, incY) && ge(a, m, n, lda)))
+//@ panics iff !valid, before-writes
+//@ writes a[i*lda+j] for i in 0..m, j in 0..n
+//@ reads x[start(m,incX)+k*incX] for k in 0..m ; y[start(n,incY)+k*incY] for k in 0..n
+//@ ensures alpha != 0 && a.rid != x.rid && a.rid != y.rid ==> forall(i, 0, m, forall(j, 0, n, same(a[i*lda+j], old(a[i*lda+j]) + (alpha*old(x[start(m,incX)+i*incX]))*old(y[start(n,incY)+j*incY]))))
+//@ ensures alpha == 0 ==> forall(i, 0, m, forall(j, 0, n, same(a[i*lda+j], old(a[i*lda+j]))))
 
 //@ func Implementation.Sgemv props: C01(frame) C07(safety)
 //@ let lenX = ite(tA == blas.NoTrans, n, m)
@@ -128,7 +220,6 @@ package gonum
 
 // Dgemv, NoTrans: in exact arithmetic every element of y is the defining row sum (operands in distinct
 // allocations). As in the reference implementation, m == 0 or n == 0 returns without scaling y by beta.
-// (The transposed case needs the column-accumulating kernel GemvT under a value contract: not done.)
 //@ func Implementation.Dgemv props: C01 C07(safety)
 //@ let lenX = ite(tA == blas.NoTrans, n, m)
 //@ let lenY = ite(tA == blas.NoTrans, m, n)
@@ -139,6 +230,10 @@ package gonum
 //@ reads a[i*lda+j] for i in 0..m, j in 0..n ; x[start(lenX,incX)+k*incX] for k in 0..lenX
 //@ ensures [real] tA == blas.NoTrans && m > 0 && n > 0 && alpha != 0 && incX == 1 && incY == 1 && y.rid != x.rid && y.rid != a.rid ==> forall(i, 0, m, y[i] == old(y[i])*beta + alpha*f64.dotp(x, a[i*lda:i*lda+n], n, 0, 1, 0, 1))
 //@ ensures [realx] tA == blas.NoTrans && m > 0 && n > 0 && alpha != 0 && y.rid != x.rid && y.rid != a.rid ==> forall(i, 0, m, y[start(m,incY)+i*incY] == old(y[start(m,incY)+i*incY])*beta + alpha*f64.dotp(x, a[i*lda:i*lda+n], n, start(n,incX), incX, 0, 1))
+// Trans / ConjTrans: every element of y is beta*y[j] plus the column sum over the rows i of (alpha*x[i])*a[i][j]
+// (f64.colsum: the sum as the reference accumulates it for this storage order, equal to alpha*(column j of A)·x
+// in exact arithmetic); unit increments, by the kernel contract of f64.GemvT.
+//@ ensures [real] tA != blas.NoTrans && m > 0 && n > 0 && alpha != 0 && incX == 1 && incY == 1 && y.rid != x.rid && y.rid != a.rid ==> forall(j, 0, n, y[j] == old(y[j])*beta + f64.colsum(a, x, alpha, m, j, lda, 0, 1))
 
 //@ func Implementation.Dgbmv Implementation.Sgbmv props: C01(frame) C07(safety)
 //@ let lenX = ite(tA == blas.NoTrans, n, m)
@@ -192,33 +287,215 @@ package gonum
 //@ writes y[start(n,incY)+k*incY] for k in 0..n
 //@ reads ap[k] for k in 0..n*(n+1)/2 ; x[start(n,incX)+k*incX] for k in 0..n
 
-//@ func Implementation.Dsyr Implementation.Ssyr props: C01(frame) C07(safety)
+//@ func Implementation.Ssyr props: C01(frame) C07(safety)
 //@ valid flagUL(ul) && n >= 0 && lda >= max(1, n) && incX != 0 &&
 //@       (n == 0 || (vec(x, n, incX) && ge(a, n, n, lda)))
 //@ panics iff !valid, before-writes
 //@ writes a[i*lda+j] for i in 0..n, j in 0..n if (ul == blas.Upper && j >= i) || (ul == blas.Lower && j <= i)
 //@ reads x[start(n,incX)+k*incX] for k in 0..n
 
-//@ func Implementation.Dsyr2 Implementation.Ssyr2 props: C01(frame) C07(safety)
+// Dsyr: in exact arithmetic every element of the referenced triangle gets alpha*x[i]*x[j] added (the other
+// triangle is outside the write frame); a and x in distinct allocations. (A row whose factor x[i]*alpha is zero
+// is skipped by the code, which is the same thing in exact arithmetic.)
+// Style of the value clauses below: the quantifier of an ensures clause is parenthesised so that the engine
+// derives no candidate invariants from it; the loop invariants are stated explicitly, with the aliasing guard
+// inside the quantifiers (the engine instantiates such hypotheses with the goal's Skolem constants).
+//@ func Implementation.Dsyr props: C01 C07(safety)
+//@ valid flagUL(ul) && n >= 0 && lda >= max(1, n) && incX != 0 &&
+//@       (n == 0 || (vec(x, n, incX) && ge(a, n, n, lda)))
+//@ panics iff !valid, before-writes
+//@ writes a[i*lda+j] for i in 0..n, j in 0..n if (ul == blas.Upper && j >= i) || (ul == blas.Lower && j <= i)
+//@ reads x[start(n,incX)+k*incX] for k in 0..n
+//@ let sx = start(n,incX)
+//@ ensures [real] a.rid != x.rid && ul == blas.Upper ==> (forall(i, 0, n, forall(j, i, n, a[i*lda+j] == old(a[i*lda+j]) + alpha*old(x[sx+i*incX])*old(x[sx+j*incX]))))
+//@ ensures [real] a.rid != x.rid && ul == blas.Lower ==> (forall(i, 0, n, forall(j, 0, i+1, a[i*lda+j] == old(a[i*lda+j]) + alpha*old(x[sx+i*incX])*old(x[sx+j*incX]))))
+//@ loop 1: invariant [real] forall(r, 0, i, forall(c, r, n, a.rid != x.rid ==> a[(r)*lda+c] == old(a[(r)*lda+c]) + alpha*old(x[sx+(r)*incX])*old(x[sx+(c)*incX])))
+//@ invariant [real] forall(r, i, n, forall(c, r, n, a.rid != x.rid ==> a[(r)*lda+c] == old(a[(r)*lda+c])))
+//@ invariant [real] forall(k, 0, n, a.rid != x.rid ==> x[sx+k*incX] == old(x[sx+(k)*incX]))
+//@ loop 2: invariant [real] forall(r, 0, i, forall(c, r, n, a.rid != x.rid ==> a[(r)*lda+c] == old(a[(r)*lda+c]) + alpha*old(x[sx+(r)*incX])*old(x[sx+(c)*incX])))
+//@ invariant [real] forall(r, i+1, n, forall(c, r, n, a.rid != x.rid ==> a[(r)*lda+c] == old(a[(r)*lda+c])))
+//@ invariant [real] forall(r, i, i+1, forall(c, r, i+it, a.rid != x.rid ==> a[(r)*lda+c] == old(a[(r)*lda+c]) + alpha*old(x[sx+(r)*incX])*old(x[sx+(c)*incX])))
+//@ invariant [real] forall(r, i, i+1, forall(c, i+it, n, a.rid != x.rid ==> a[(r)*lda+c] == old(a[(r)*lda+c])))
+//@ invariant [real] forall(k, 0, n, a.rid != x.rid ==> x[sx+k*incX] == old(x[sx+(k)*incX]))
+//@ loop 3: invariant [real] ix == sx + i*incX
+//@ invariant [real] forall(r, 0, i, forall(c, r, n, a.rid != x.rid ==> a[(r)*lda+c] == old(a[(r)*lda+c]) + alpha*old(x[sx+(r)*incX])*old(x[sx+(c)*incX])))
+//@ invariant [real] forall(r, i, n, forall(c, r, n, a.rid != x.rid ==> a[(r)*lda+c] == old(a[(r)*lda+c])))
+//@ invariant [real] forall(k, 0, n, a.rid != x.rid ==> x[sx+k*incX] == old(x[sx+(k)*incX]))
+//@ loop 4: invariant [real] ix == sx + i*incX
+//@ invariant [real] jx == sx + j*incX
+//@ invariant [real] forall(r, 0, i, forall(c, r, n, a.rid != x.rid ==> a[(r)*lda+c] == old(a[(r)*lda+c]) + alpha*old(x[sx+(r)*incX])*old(x[sx+(c)*incX])))
+//@ invariant [real] forall(r, i+1, n, forall(c, r, n, a.rid != x.rid ==> a[(r)*lda+c] == old(a[(r)*lda+c])))
+//@ invariant [real] forall(r, i, i+1, forall(c, r, j, a.rid != x.rid ==> a[(r)*lda+c] == old(a[(r)*lda+c]) + alpha*old(x[sx+(r)*incX])*old(x[sx+(c)*incX])))
+//@ invariant [real] forall(r, i, i+1, forall(c, j, n, a.rid != x.rid ==> a[(r)*lda+c] == old(a[(r)*lda+c])))
+//@ invariant [real] forall(k, 0, n, a.rid != x.rid ==> x[sx+k*incX] == old(x[sx+(k)*incX]))
+//@ loop 5: invariant [real] forall(r, 0, i, forall(c, 0, r+1, a.rid != x.rid ==> a[(r)*lda+c] == old(a[(r)*lda+c]) + alpha*old(x[sx+(r)*incX])*old(x[sx+(c)*incX])))
+//@ invariant [real] forall(r, i, n, forall(c, 0, r+1, a.rid != x.rid ==> a[(r)*lda+c] == old(a[(r)*lda+c])))
+//@ invariant [real] forall(k, 0, n, a.rid != x.rid ==> x[sx+k*incX] == old(x[sx+(k)*incX]))
+//@ loop 6: invariant [real] forall(r, 0, i, forall(c, 0, r+1, a.rid != x.rid ==> a[(r)*lda+c] == old(a[(r)*lda+c]) + alpha*old(x[sx+(r)*incX])*old(x[sx+(c)*incX])))
+//@ invariant [real] forall(r, i+1, n, forall(c, 0, r+1, a.rid != x.rid ==> a[(r)*lda+c] == old(a[(r)*lda+c])))
+//@ invariant [real] forall(r, i, i+1, forall(c, 0, it, a.rid != x.rid ==> a[(r)*lda+c] == old(a[(r)*lda+c]) + alpha*old(x[sx+(r)*incX])*old(x[sx+(c)*incX])))
+//@ invariant [real] forall(r, i, i+1, forall(c, it, r+1, a.rid != x.rid ==> a[(r)*lda+c] == old(a[(r)*lda+c])))
+//@ invariant [real] forall(k, 0, n, a.rid != x.rid ==> x[sx+k*incX] == old(x[sx+(k)*incX]))
+//@ loop 7: invariant [real] ix == sx + i*incX
+//@ invariant [real] forall(r, 0, i, forall(c, 0, r+1, a.rid != x.rid ==> a[(r)*lda+c] == old(a[(r)*lda+c]) + alpha*old(x[sx+(r)*incX])*old(x[sx+(c)*incX])))
+//@ invariant [real] forall(r, i, n, forall(c, 0, r+1, a.rid != x.rid ==> a[(r)*lda+c] == old(a[(r)*lda+c])))
+//@ invariant [real] forall(k, 0, n, a.rid != x.rid ==> x[sx+k*incX] == old(x[sx+(k)*incX]))
+//@ loop 8: invariant [real] ix == sx + i*incX
+//@ invariant [real] jx == sx + j*incX
+//@ invariant [real] forall(r, 0, i, forall(c, 0, r+1, a.rid != x.rid ==> a[(r)*lda+c] == old(a[(r)*lda+c]) + alpha*old(x[sx+(r)*incX])*old(x[sx+(c)*incX])))
+//@ invariant [real] forall(r, i+1, n, forall(c, 0, r+1, a.rid != x.rid ==> a[(r)*lda+c] == old(a[(r)*lda+c])))
+//@ invariant [real] forall(r, i, i+1, forall(c, 0, j, a.rid != x.rid ==> a[(r)*lda+c] == old(a[(r)*lda+c]) + alpha*old(x[sx+(r)*incX])*old(x[sx+(c)*incX])))
+//@ invariant [real] forall(r, i, i+1, forall(c, j, r+1, a.rid != x.rid ==> a[(r)*lda+c] == old(a[(r)*lda+c])))
+//@ invariant [real] forall(k, 0, n, a.rid != x.rid ==> x[sx+k*incX] == old(x[sx+(k)*incX]))
+
+//@ func Implementation.Ssyr2 props: C01(frame) C07(safety)
 //@ valid flagUL(ul) && n >= 0 && lda >= max(1, n) && incX != 0 && incY != 0 &&
 //@       (n == 0 || (vec(x, n, incX) && vec(y, n, incY) && ge(a, n, n, lda)))
 //@ panics iff !valid, before-writes
 //@ writes a[i*lda+j] for i in 0..n, j in 0..n if (ul == blas.Upper && j >= i) || (ul == blas.Lower && j <= i)
 //@ reads x[start(n,incX)+k*incX] for k in 0..n ; y[start(n,incY)+k*incY] for k in 0..n
 
-//@ func Implementation.Dspr Implementation.Sspr props: C01(frame) C07(safety)
+// Dsyr2: in exact arithmetic every element of the referenced triangle gets alpha*x[i]*y[j] + alpha*y[i]*x[j]
+// added (the other triangle is outside the write frame); operands in distinct allocations.
+//@ func Implementation.Dsyr2 props: C01 C07(safety)
+//@ valid flagUL(ul) && n >= 0 && lda >= max(1, n) && incX != 0 && incY != 0 &&
+//@       (n == 0 || (vec(x, n, incX) && vec(y, n, incY) && ge(a, n, n, lda)))
+//@ panics iff !valid, before-writes
+//@ writes a[i*lda+j] for i in 0..n, j in 0..n if (ul == blas.Upper && j >= i) || (ul == blas.Lower && j <= i)
+//@ reads x[start(n,incX)+k*incX] for k in 0..n ; y[start(n,incY)+k*incY] for k in 0..n
+//@ let sx = start(n,incX)
+//@ let sy = start(n,incY)
+//@ ensures [real] a.rid != x.rid && a.rid != y.rid && ul == blas.Upper ==> (forall(i, 0, n, forall(j, i, n, a[i*lda+j] == old(a[i*lda+j]) + alpha*old(x[sx+i*incX])*old(y[sy+j*incY]) + alpha*old(y[sy+i*incY])*old(x[sx+j*incX]))))
+//@ ensures [real] a.rid != x.rid && a.rid != y.rid && ul == blas.Lower ==> (forall(i, 0, n, forall(j, 0, i+1, a[i*lda+j] == old(a[i*lda+j]) + alpha*old(x[sx+i*incX])*old(y[sy+j*incY]) + alpha*old(y[sy+i*incY])*old(x[sx+j*incX]))))
+//@ loop 1: invariant [real] forall(r, 0, i, forall(c, r, n, a.rid != x.rid && a.rid != y.rid ==> a[(r)*lda+c] == old(a[(r)*lda+c]) + alpha*old(x[sx+(r)*incX])*old(y[sy+(c)*incY]) + alpha*old(y[sy+(r)*incY])*old(x[sx+(c)*incX])))
+//@ invariant [real] forall(r, i, n, forall(c, r, n, a.rid != x.rid && a.rid != y.rid ==> a[(r)*lda+c] == old(a[(r)*lda+c])))
+//@ invariant [real] forall(k, 0, n, a.rid != x.rid && a.rid != y.rid ==> x[sx+k*incX] == old(x[sx+(k)*incX]))
+//@ invariant [real] forall(k, 0, n, a.rid != x.rid && a.rid != y.rid ==> y[sy+k*incY] == old(y[sy+(k)*incY]))
+//@ loop 2: invariant [real] forall(r, 0, i, forall(c, r, n, a.rid != x.rid && a.rid != y.rid ==> a[(r)*lda+c] == old(a[(r)*lda+c]) + alpha*old(x[sx+(r)*incX])*old(y[sy+(c)*incY]) + alpha*old(y[sy+(r)*incY])*old(x[sx+(c)*incX])))
+//@ invariant [real] forall(r, i+1, n, forall(c, r, n, a.rid != x.rid && a.rid != y.rid ==> a[(r)*lda+c] == old(a[(r)*lda+c])))
+//@ invariant [real] forall(r, i, i+1, forall(c, r, j, a.rid != x.rid && a.rid != y.rid ==> a[(r)*lda+c] == old(a[(r)*lda+c]) + alpha*old(x[sx+(r)*incX])*old(y[sy+(c)*incY]) + alpha*old(y[sy+(r)*incY])*old(x[sx+(c)*incX])))
+//@ invariant [real] forall(r, i, i+1, forall(c, j, n, a.rid != x.rid && a.rid != y.rid ==> a[(r)*lda+c] == old(a[(r)*lda+c])))
+//@ invariant [real] forall(k, 0, n, a.rid != x.rid && a.rid != y.rid ==> x[sx+k*incX] == old(x[sx+(k)*incX]))
+//@ invariant [real] forall(k, 0, n, a.rid != x.rid && a.rid != y.rid ==> y[sy+k*incY] == old(y[sy+(k)*incY]))
+//@ loop 3: invariant [real] ix == sx + i*incX
+//@ invariant [real] iy == sy + i*incY
+//@ invariant [real] forall(r, 0, i, forall(c, r, n, a.rid != x.rid && a.rid != y.rid ==> a[(r)*lda+c] == old(a[(r)*lda+c]) + alpha*old(x[sx+(r)*incX])*old(y[sy+(c)*incY]) + alpha*old(y[sy+(r)*incY])*old(x[sx+(c)*incX])))
+//@ invariant [real] forall(r, i, n, forall(c, r, n, a.rid != x.rid && a.rid != y.rid ==> a[(r)*lda+c] == old(a[(r)*lda+c])))
+//@ invariant [real] forall(k, 0, n, a.rid != x.rid && a.rid != y.rid ==> x[sx+k*incX] == old(x[sx+(k)*incX]))
+//@ invariant [real] forall(k, 0, n, a.rid != x.rid && a.rid != y.rid ==> y[sy+k*incY] == old(y[sy+(k)*incY]))
+//@ loop 4: invariant [real] ix == sx + i*incX
+//@ invariant [real] iy == sy + i*incY
+//@ invariant [real] jx == sx + j*incX
+//@ invariant [real] jy == sy + j*incY
+//@ invariant [real] forall(r, 0, i, forall(c, r, n, a.rid != x.rid && a.rid != y.rid ==> a[(r)*lda+c] == old(a[(r)*lda+c]) + alpha*old(x[sx+(r)*incX])*old(y[sy+(c)*incY]) + alpha*old(y[sy+(r)*incY])*old(x[sx+(c)*incX])))
+//@ invariant [real] forall(r, i+1, n, forall(c, r, n, a.rid != x.rid && a.rid != y.rid ==> a[(r)*lda+c] == old(a[(r)*lda+c])))
+//@ invariant [real] forall(r, i, i+1, forall(c, r, j, a.rid != x.rid && a.rid != y.rid ==> a[(r)*lda+c] == old(a[(r)*lda+c]) + alpha*old(x[sx+(r)*incX])*old(y[sy+(c)*incY]) + alpha*old(y[sy+(r)*incY])*old(x[sx+(c)*incX])))
+//@ invariant [real] forall(r, i, i+1, forall(c, j, n, a.rid != x.rid && a.rid != y.rid ==> a[(r)*lda+c] == old(a[(r)*lda+c])))
+//@ invariant [real] forall(k, 0, n, a.rid != x.rid && a.rid != y.rid ==> x[sx+k*incX] == old(x[sx+(k)*incX]))
+//@ invariant [real] forall(k, 0, n, a.rid != x.rid && a.rid != y.rid ==> y[sy+k*incY] == old(y[sy+(k)*incY]))
+//@ loop 5: invariant [real] forall(r, 0, i, forall(c, 0, r+1, a.rid != x.rid && a.rid != y.rid ==> a[(r)*lda+c] == old(a[(r)*lda+c]) + alpha*old(x[sx+(r)*incX])*old(y[sy+(c)*incY]) + alpha*old(y[sy+(r)*incY])*old(x[sx+(c)*incX])))
+//@ invariant [real] forall(r, i, n, forall(c, 0, r+1, a.rid != x.rid && a.rid != y.rid ==> a[(r)*lda+c] == old(a[(r)*lda+c])))
+//@ invariant [real] forall(k, 0, n, a.rid != x.rid && a.rid != y.rid ==> x[sx+k*incX] == old(x[sx+(k)*incX]))
+//@ invariant [real] forall(k, 0, n, a.rid != x.rid && a.rid != y.rid ==> y[sy+k*incY] == old(y[sy+(k)*incY]))
+//@ loop 6: invariant [real] forall(r, 0, i, forall(c, 0, r+1, a.rid != x.rid && a.rid != y.rid ==> a[(r)*lda+c] == old(a[(r)*lda+c]) + alpha*old(x[sx+(r)*incX])*old(y[sy+(c)*incY]) + alpha*old(y[sy+(r)*incY])*old(x[sx+(c)*incX])))
+//@ invariant [real] forall(r, i+1, n, forall(c, 0, r+1, a.rid != x.rid && a.rid != y.rid ==> a[(r)*lda+c] == old(a[(r)*lda+c])))
+//@ invariant [real] forall(r, i, i+1, forall(c, 0, j, a.rid != x.rid && a.rid != y.rid ==> a[(r)*lda+c] == old(a[(r)*lda+c]) + alpha*old(x[sx+(r)*incX])*old(y[sy+(c)*incY]) + alpha*old(y[sy+(r)*incY])*old(x[sx+(c)*incX])))
+//@ invariant [real] forall(r, i, i+1, forall(c, j, r+1, a.rid != x.rid && a.rid != y.rid ==> a[(r)*lda+c] == old(a[(r)*lda+c])))
+//@ invariant [real] forall(k, 0, n, a.rid != x.rid && a.rid != y.rid ==> x[sx+k*incX] == old(x[sx+(k)*incX]))
+//@ invariant [real] forall(k, 0, n, a.rid != x.rid && a.rid != y.rid ==> y[sy+k*incY] == old(y[sy+(k)*incY]))
+//@ loop 7: invariant [real] ix == sx + i*incX
+//@ invariant [real] iy == sy + i*incY
+//@ invariant [real] forall(r, 0, i, forall(c, 0, r+1, a.rid != x.rid && a.rid != y.rid ==> a[(r)*lda+c] == old(a[(r)*lda+c]) + alpha*old(x[sx+(r)*incX])*old(y[sy+(c)*incY]) + alpha*old(y[sy+(r)*incY])*old(x[sx+(c)*incX])))
+//@ invariant [real] forall(r, i, n, forall(c, 0, r+1, a.rid != x.rid && a.rid != y.rid ==> a[(r)*lda+c] == old(a[(r)*lda+c])))
+//@ invariant [real] forall(k, 0, n, a.rid != x.rid && a.rid != y.rid ==> x[sx+k*incX] == old(x[sx+(k)*incX]))
+//@ invariant [real] forall(k, 0, n, a.rid != x.rid && a.rid != y.rid ==> y[sy+k*incY] == old(y[sy+(k)*incY]))
+//@ loop 8: invariant [real] ix == sx + i*incX
+//@ invariant [real] iy == sy + i*incY
+//@ invariant [real] jx == sx + j*incX
+//@ invariant [real] jy == sy + j*incY
+//@ invariant [real] forall(r, 0, i, forall(c, 0, r+1, a.rid != x.rid && a.rid != y.rid ==> a[(r)*lda+c] == old(a[(r)*lda+c]) + alpha*old(x[sx+(r)*incX])*old(y[sy+(c)*incY]) + alpha*old(y[sy+(r)*incY])*old(x[sx+(c)*incX])))
+//@ invariant [real] forall(r, i+1, n, forall(c, 0, r+1, a.rid != x.rid && a.rid != y.rid ==> a[(r)*lda+c] == old(a[(r)*lda+c])))
+//@ invariant [real] forall(r, i, i+1, forall(c, 0, j, a.rid != x.rid && a.rid != y.rid ==> a[(r)*lda+c] == old(a[(r)*lda+c]) + alpha*old(x[sx+(r)*incX])*old(y[sy+(c)*incY]) + alpha*old(y[sy+(r)*incY])*old(x[sx+(c)*incX])))
+//@ invariant [real] forall(r, i, i+1, forall(c, j, r+1, a.rid != x.rid && a.rid != y.rid ==> a[(r)*lda+c] == old(a[(r)*lda+c])))
+//@ invariant [real] forall(k, 0, n, a.rid != x.rid && a.rid != y.rid ==> x[sx+k*incX] == old(x[sx+(k)*incX]))
+//@ invariant [real] forall(k, 0, n, a.rid != x.rid && a.rid != y.rid ==> y[sy+k*incY] == old(y[sy+(k)*incY]))
+
+//@ func Implementation.Sspr props: C01(frame) C07(safety)
 //@ valid flagUL(ul) && n >= 0 && incX != 0 &&
 //@       (n == 0 || (vec(x, n, incX) && len(ap) >= n*(n+1)/2))
 //@ panics iff !valid, before-writes
 //@ writes ap[k] for k in 0..n*(n+1)/2
 //@ reads x[start(n,incX)+k*incX] for k in 0..n
 
-//@ func Implementation.Dspr2 Implementation.Sspr2 props: C01(frame) C07(safety)
+// Packed row-major storage of a symmetric n×n matrix: position of element (i, j) of the upper
+// triangle (j >= i) and of the lower triangle (j <= i).
+//@ spec pkU(i int, j int, n int) int = div(i*(2*n-i+1), 2) + j - i
+//@ spec pkL(i int, j int) int = div(i*(i+1), 2) + j
+
+// Dspr: every element of the packed triangle gets alpha*x[i]*x[j] added, exactly (no summation), in the
+// association (alpha*x[i])*x[j] (the reference forms x[j]*(alpha*x[i])); ap and x in distinct allocations.
+// Decided for unit increment; the invariants of the strided loops (x[kx+(i+j)*incX] against packed
+// positions) are at the limit of the solvers and are not stated.
+//@ func Implementation.Dspr props: C01 C07(safety)
+//@ valid flagUL(ul) && n >= 0 && incX != 0 &&
+//@       (n == 0 || (vec(x, n, incX) && len(ap) >= n*(n+1)/2))
+//@ panics iff !valid, before-writes
+//@ writes ap[k] for k in 0..n*(n+1)/2
+//@ reads x[start(n,incX)+k*incX] for k in 0..n
+//@ let sx = start(n,incX)
+//@ ensures alpha != 0 && incX == 1 && ap.rid != x.rid && ul == blas.Upper ==> (forall(i, 0, n, forall(j, i, n, same(ap[pkU(i,j,n)], old(ap[pkU(i,j,n)]) + (alpha*old(x[sx+i*incX]))*old(x[sx+j*incX])))))
+//@ ensures alpha != 0 && incX == 1 && ap.rid != x.rid && ul == blas.Lower ==> (forall(i, 0, n, forall(j, 0, i+1, same(ap[pkL(i,j)], old(ap[pkL(i,j)]) + (alpha*old(x[sx+i*incX]))*old(x[sx+j*incX])))))
+//@ ensures alpha == 0 ==> (forall(q, 0, n*(n+1)/2, same(ap[q], old(ap[q]))))
+//@ loop 1: invariant 2*offset == i*(2*n-i+1)
+//@ invariant forall(r, 0, i, pkU(r,n,n) <= offset)
+//@ invariant forall(r, 0, i, forall(c, r, n, ap.rid != x.rid ==> same(ap[pkU(r,c,n)], old(ap[pkU(r,c,n)]) + (alpha*old(x[sx+(r)*incX]))*old(x[sx+(c)*incX]))))
+//@ invariant forall(q, offset, n*(n+1)/2, ap.rid != x.rid ==> same(ap[q], old(ap[q])))
+//@ invariant forall(k, 0, n, ap.rid != x.rid ==> same(x[sx+k*incX], old(x[sx+(k)*incX])))
+//@ loop 2: invariant forall(r, 0, i, forall(c, r, n, ap.rid != x.rid ==> same(ap[pkU(r,c,n)], old(ap[pkU(r,c,n)]) + (alpha*old(x[sx+(r)*incX]))*old(x[sx+(c)*incX]))))
+//@ invariant forall(r, i, i+1, forall(c, r, r+it, ap.rid != x.rid ==> same(ap[pkU(r,c,n)], old(ap[pkU(r,c,n)]) + (alpha*old(x[sx+(r)*incX]))*old(x[sx+(c)*incX]))))
+//@ invariant forall(q, offset+it, n*(n+1)/2, ap.rid != x.rid ==> same(ap[q], old(ap[q])))
+//@ invariant forall(k, 0, n, ap.rid != x.rid ==> same(x[sx+k*incX], old(x[sx+(k)*incX])))
+//@ loop 5: invariant 2*offset == i*(i+3)
+//@ invariant 2*(offset-i) == i*(i+1)
+//@ invariant forall(r, 0, i, pkL(r,r) < offset-i)
+//@ invariant forall(r, 0, i, forall(c, 0, r+1, ap.rid != x.rid ==> same(ap[pkL(r,c)], old(ap[pkL(r,c)]) + (alpha*old(x[sx+(r)*incX]))*old(x[sx+(c)*incX]))))
+//@ invariant forall(q, offset-i, n*(n+1)/2, ap.rid != x.rid ==> same(ap[q], old(ap[q])))
+//@ invariant forall(k, 0, n, ap.rid != x.rid ==> same(x[sx+k*incX], old(x[sx+(k)*incX])))
+//@ loop 6: invariant forall(r, 0, i, forall(c, 0, r+1, ap.rid != x.rid ==> same(ap[pkL(r,c)], old(ap[pkL(r,c)]) + (alpha*old(x[sx+(r)*incX]))*old(x[sx+(c)*incX]))))
+//@ invariant forall(r, i, i+1, forall(c, 0, it, ap.rid != x.rid ==> same(ap[pkL(r,c)], old(ap[pkL(r,c)]) + (alpha*old(x[sx+(r)*incX]))*old(x[sx+(c)*incX]))))
+//@ invariant forall(q, offset-i+it, n*(n+1)/2, ap.rid != x.rid ==> same(ap[q], old(ap[q])))
+//@ invariant forall(k, 0, n, ap.rid != x.rid ==> same(x[sx+k*incX], old(x[sx+(k)*incX])))
+
+//@ func Implementation.Sspr2 props: C01(frame) C07(safety)
 //@ valid flagUL(ul) && n >= 0 && incX != 0 && incY != 0 &&
 //@       (n == 0 || (vec(x, n, incX) && vec(y, n, incY) && len(ap) >= n*(n+1)/2))
 //@ panics iff !valid, before-writes
 //@ writes ap[k] for k in 0..n*(n+1)/2
 //@ reads x[start(n,incX)+k*incX] for k in 0..n ; y[start(n,incY)+k*incY] for k in 0..n
+
+// Dspr2: in exact arithmetic every element of the packed triangle gets alpha*x[i]*y[j] + alpha*y[i]*x[j]
+// added; ap, x, y in distinct allocations. Decided for the upper triangle with unit increments; the
+// invariants of the lower-triangle and strided loops are beyond the solvers' time limits and are not stated.
+//@ func Implementation.Dspr2 props: C01 C07(safety)
+//@ valid flagUL(ul) && n >= 0 && incX != 0 && incY != 0 &&
+//@       (n == 0 || (vec(x, n, incX) && vec(y, n, incY) && len(ap) >= n*(n+1)/2))
+//@ panics iff !valid, before-writes
+//@ writes ap[k] for k in 0..n*(n+1)/2
+//@ reads x[start(n,incX)+k*incX] for k in 0..n ; y[start(n,incY)+k*incY] for k in 0..n
+//@ let sx = start(n,incX)
+//@ let sy = start(n,incY)
+//@ ensures [real] incX == 1 && incY == 1 && ap.rid != x.rid && ap.rid != y.rid && ul == blas.Upper ==> (forall(i, 0, n, forall(j, i, n, ap[pkU(i,j,n)] == old(ap[pkU(i,j,n)]) + alpha*old(x[sx+i*incX])*old(y[sy+j*incY]) + alpha*old(y[sy+i*incY])*old(x[sx+j*incX]))))
+//@ loop 1: invariant [real] 2*offset == i*(2*n-i+1)
+//@ invariant [real] forall(r, 0, i, pkU(r,n,n) <= offset)
+//@ invariant [real] forall(r, 0, i, forall(c, r, n, ap.rid != x.rid && ap.rid != y.rid ==> ap[pkU(r,c,n)] == old(ap[pkU(r,c,n)]) + alpha*old(x[sx+(r)*incX])*old(y[sy+(c)*incY]) + alpha*old(y[sy+(r)*incY])*old(x[sx+(c)*incX])))
+//@ invariant [real] forall(q, offset, n*(n+1)/2, ap.rid != x.rid && ap.rid != y.rid ==> ap[q] == old(ap[q]))
+//@ invariant [real] forall(k, 0, n, ap.rid != x.rid && ap.rid != y.rid ==> x[sx+k*incX] == old(x[sx+(k)*incX]))
+//@ invariant [real] forall(k, 0, n, ap.rid != x.rid && ap.rid != y.rid ==> y[sy+k*incY] == old(y[sy+(k)*incY]))
+//@ loop 2: invariant [real] forall(r, 0, i, forall(c, r, n, ap.rid != x.rid && ap.rid != y.rid ==> ap[pkU(r,c,n)] == old(ap[pkU(r,c,n)]) + alpha*old(x[sx+(r)*incX])*old(y[sy+(c)*incY]) + alpha*old(y[sy+(r)*incY])*old(x[sx+(c)*incX])))
+//@ invariant [real] forall(r, i, i+1, forall(c, r, r+it, ap.rid != x.rid && ap.rid != y.rid ==> ap[pkU(r,c,n)] == old(ap[pkU(r,c,n)]) + alpha*old(x[sx+(r)*incX])*old(y[sy+(c)*incY]) + alpha*old(y[sy+(r)*incY])*old(x[sx+(c)*incX])))
+//@ invariant [real] forall(q, offset+it, n*(n+1)/2, ap.rid != x.rid && ap.rid != y.rid ==> ap[q] == old(ap[q]))
+//@ invariant [real] forall(k, 0, n, ap.rid != x.rid && ap.rid != y.rid ==> x[sx+k*incX] == old(x[sx+(k)*incX]))
+//@ invariant [real] forall(k, 0, n, ap.rid != x.rid && ap.rid != y.rid ==> y[sy+k*incY] == old(y[sy+(k)*incY]))
 
 // ---- Level 3 ------------------------------------------------------------------
 
